@@ -49,6 +49,12 @@ CHECKS = {
  "C14": dict(cat="model_checking",
    text="The clock and the solver's give-up are the symbolic part: perf_counter/perf_counter_ns are replaced by a schedule-driven clock (time stands still except at <=1, thorough 2, jump events whose position among ALL clock reads and size are free decisions) and any z3.Optimize.check() under a timeout may answer 'unknown' (model() then raises or returns a non-optimal model). The real Deadline, budget arithmetic of InferenceManager.inference, wrappers and operators run on a symbolic base with a budgeted batch followed by a budget-free call; every row must be flagged-with-False or equal the definition's answer, no exception may escape; also under parallel evaluation with hanging workers. Found and fixed: model read after 'unknown'.",
    ref="3 C14", tech="symbolic execution over fault schedules (clock jumps, solver give-up, hung workers as free decisions) of the real budget/timeout code; per-row unsat VC; fault-injection replay on the real stack"),
+ "C16": dict(cat="model_checking",
+   text="SystemZPreOCF on symbolic bases with concrete worlds: construction (both branches, 0-2 symbolic facts, extended unset/True/False), rank_world for up to 3 worlds in a chosen order (lazy or forced) followed by compute_all_ranks - every rank must equal the Z-rank of the definition (top rank exactly for infeasible worlds in extended mode, facts = base + (Bottom|!fact)); acceptance of every finite-layer base conditional; the acceptance verdict of an arbitrary query after any lazy prefix must equal the System Z definition; unsatisfiable combinations must be refused with diagnostics. Bounds N=2, M=2 (thorough (2,3),(3,2)).",
+   ref="3 C16", tech=SYMEX),
+ "C18": dict(cat="model_checking",
+   text="CustomPreOCF with one symbolic integer rank per world (0..3) and arbitrary formula tables: formula_rank = min over models / undefined, conditional_acceptance (incl. unsatisfiable antecedent), marginalize for every proper subset of atoms (min over extensions, signature order), compute_conditionalization / filter (exact world set and ranks), ranks2tpo/tpo2ranks (layers preserve the order). N=2 fully, N=3 for formula_rank and marginalize (thorough: all).",
+   ref="3 C18", tech="symbolic execution with symbolic integers (z3 Int) for ranks and truth tables for formulas over the real PreOCF code; per-path unsat VC against the defining law"),
 }
 NA = {
  "C10": "ANTLR-generated parser interpreted by the antlr4 runtime: symbolic inputs are concretised at the first DFA lookup, CrossHair gave an unsound 'Confirmed' (DFA-cache nondeterminism) and no verdict in 8 min for |s|<=3; an SMT model of ALL(*) would be a model of the runtime, not the real code (DESIGN.md 3 C10)",
